@@ -740,7 +740,12 @@ class Models:
         if n >= 1 << 63:
             raise Inconclusive('negative ostream::write length')
         bs = e.loadbytes(st, args[1], n, 'ostream::write source', stack)
-        # writing uninitialised bytes is reported (valgrind would at the write syscall)
+        # serialising uninitialised bytes: the output of dump() then depends on stale heap/stack contents
+        # (native replay: the replay runtime's stream buffer asks valgrind whether the written bytes are defined)
+        for b in bs:
+            if not isinstance(b, (int, tuple)) and e.undef_vars(b):
+                e.fail(st, 'UNINIT-DECISION', f'ostream::write in {stack[-1].f.name} serialises uninitialised bytes', stack=stack)
+                break
         st.streams[this.obj] = sm
         sm.data += bs
         return this
